@@ -1114,6 +1114,23 @@ func sinkOf(rel string) string {
 	return "other:" + rel
 }
 
+// secretOutsideDeviceText: does `line` still show the secret after every piece of text that the device
+// itself wrote with the secret in it (its echo) has been taken out?
+func secretOutsideDeviceText(line, simOut, secret string, user string) bool {
+	rest := line
+	for _, dl := range strings.Split(strings.ReplaceAll(simOut, "\r\n", "\n"), "\n") {
+		dl = strings.TrimSpace(dl)
+		if dl == "" {
+			continue
+		}
+		if _, found := findSecret(dl, secret, user); found {
+			rest = strings.ReplaceAll(rest, dl, "<device text>")
+		}
+	}
+	_, found := findSecret(rest, secret, user)
+	return found
+}
+
 func (e *c17Env) scanRun(c *runCase, o *runOutcome) {
 	secrets := map[string]string{"password": c.Pass}
 	switch c.Dev {
@@ -1180,9 +1197,10 @@ func (e *c17Env) scanRun(c *runCase, o *runOutcome) {
 				judged = true
 				v := verdict{pred: "secret_in_sink", phase: "n/a", line: "n/a", form: form}
 				switch {
-				case kind == "password" && devSSH[c.Dev] && (!o.noEcho || o.Env != "" && echoFlavour):
+				case kind == "password" && devSSH[c.Dev] && (!o.noEcho || o.Env != "" && echoFlavour) && !secretOutsideDeviceText(line, o.SimOut, secret, c.user()):
 					// the device echoed what was typed at its password prompt: outside the guarantee
-					// (hypothesis noEchoAtPasswordPrompt of ssh_echo_device_independent)
+					// (hypothesis noEchoAtPasswordPrompt of ssh_echo_device_independent) — but only where the
+					// sink shows text the device wrote; a password the code itself put next to it is judged
 					e.res.Count("scan:device-echoes-at-password-prompt(outside guarantee):" + sink)
 					continue
 				case kind == "apikey" && c.Dev == "PAN-OS" && c.Fault == "statuskey" && !strings.HasPrefix(sink, "session"):
